@@ -223,6 +223,48 @@ def edge_scenario(args):
         s.close()
 
 
+def redirect_scenario(args):
+    """a TURN server that answers 300 Try Alternate, the alternate server challenges (401) and then grants: with and without
+    force-relay the agent must follow the redirect, answer the challenge, obtain the relayed candidate and announce completion
+    once (in force-relay mode datagrams from addresses that are not TURN servers are ignored — the alternate server IS one)"""
+    exe, seed, tier = args
+    import random
+    rng = random.Random(f"C20redir/{seed}")
+    s = simlib.Sim(exe)
+    bad = []
+    try:
+        fr = rng.randint(0, 1)
+        ncomp = rng.randint(1, 2)
+        s.op(f"net seed {seed}"); s.op(f"net latency 1 {rng.choice([1, 5, 30])}")
+        s.op("server 127.0.0.60:3478 turn r user pass")
+        s.op("server 127.0.0.99:3478 turn aa user pass")
+        s.op(f"new A ctrl=1 compat=0 opts=0 rc=3 rto=500 forcerelay={fr} addrs=127.0.0.1")
+        s.op(f"stream A {ncomp}"); s.op("attach A 1")
+        for c in range(1, ncomp + 1):
+            s.op(f"relay A 1 {c} 127.0.0.60:3478 user pass 0")
+        s.op("gather A 1")
+        s.op("run 8000")
+        ev = s.events()
+        alt = [e for e in ev if " server 127.0.0.99:3478 req " in e]
+        authed = [e for e in alt if "authed=1" in e]
+        dones = [e for e in ev if " gathering-done " in e]
+        relayed = [e for e in ev if re.search(r" A new-candidate \d+ type=3 ", e)]
+        if len(dones) != 1:
+            bad.append(("never-done" if not dones else "done-twice", f"redirected TURN allocation (force-relay={fr}): completion announced {len(dones)} times within 8 s"))
+        if alt and not authed:
+            bad.append(("challenge-ignored", f"force-relay={fr}: the alternate TURN server answered {len(alt)} Allocate request(s) with a 401 challenge on a loss-free "
+                                             f"path, the agent never sent the authenticated request"))
+        if authed and len(relayed) < ncomp:
+            bad.append(("missing-candidate", f"force-relay={fr}: the alternate server granted {len(authed)} allocation(s), {len(relayed)} relayed candidate(s) announced for {ncomp} component(s)"))
+        return dict(seed=seed, bad=bad, known=[], script=s.script, servers=[("turn", "127.0.0.60:3478", "r"), ("turn", "127.0.0.99:3478", "aa")],
+                    ncands=1 + len(relayed), done_at=None, endless=None, glines=[])
+    except simlib.SimDied as e:
+        return dict(seed=seed, bad=[("crash", str(e)[-1500:])], known=[], script=s.script, servers=[], ncands=0, done_at=None,
+                    endless=None, glines=[])
+    finally:
+        s.close()
+
+
 def two_stream_scenario(args):
     """two streams, relay / STUN servers configured on the second one BEFORE its gathering run, the first stream gathered first:
     completion is announced once per gathering RUN — the second stream gets none while it has not been asked to gather, and
@@ -448,6 +490,7 @@ def run(tier, seed):
             res += simlib.run_parallel(edge_scenario, [(exe, seed * 100000 + i, tier) for i in range(8 if tier == "quick" else 60)])
             res += simlib.run_parallel(late_relay_scenario, [(exe, seed * 100000 + i, tier) for i in range(10 if tier == "quick" else 80)])
             res += simlib.run_parallel(two_stream_scenario, [(exe, seed * 100000 + i, tier) for i in range(10 if tier == "quick" else 80)])
+            res += simlib.run_parallel(redirect_scenario, [(exe, seed * 100000 + i, tier) for i in range(8 if tier == "quick" else 60)])
             kinds, behs = {}, {}
             k3 = None
             for r in res:
